@@ -73,12 +73,13 @@ def gen():
                 ex["user_" + which] = {"of": draw(st.integers(0, nv - 1)), "vector": draw(st.booleans())}
         ex["auto"] = [i for i, d in enumerate(spec["vars"]) if d["family"] and d["role"] == "param" and d["support"] in ("pos", "unit", "bounded") and not d.get("weak_of")
                       and draw(st.integers(0, 2)) == 0 and i != ex.get("bare", {}).get("at")]   # (a bare Dist pins the old value node)
+        ex["merge"] = draw(st.booleans())
         spec["extras"] = ex
         n_re = draw(st.integers(1, 3))
         re = [[[draw(st.floats(-2, 2, width=32)) for _ in d["z"]] for d in spec["vars"]] for _ in range(n_re)]
         flip = [draw(st.booleans()) for _ in spec["vars"]]
         return {"spec": spec, "reassign": re, "flip": flip, "modes": [draw(st.sampled_from(["auto", "auto", "targeted"])) for _ in re],
-                "pop_rebuild": draw(st.booleans()), "prebuild_copy": draw(st.booleans())}
+                "pop_rebuild": draw(st.booleans()), "prebuild_copy": draw(st.booleans()), "simulate": draw(st.booleans()), "sim_seed": draw(st.integers(0, 10**6))}
 
     return g()
 
@@ -130,6 +131,9 @@ def build_model(spec, per_obs_override=None, prebuild_copy=False):
             else:
                 node = lsl.Calc(lambda x: -jnp.sum(x ** 2) - 3.0, src, _name="user_" + which)
             setattr(gb, which + "_node", node)
+    if ex.get("merge"):
+        # the graph is assembled from two builders: a second builder holding part of the variables is added AFTER the user-supplied nodes were set
+        gb.add(lsl.GraphBuilder(to_float32=not x64()).add(lvars[-1]))
     if prebuild_copy and not ex.get("auto"):
         # the builder stays usable after build_model(copy=True): the model under test is the builder's SECOND model
         gb.build_model(copy=True)
@@ -303,6 +307,22 @@ def oracle(case):
             b2 = np.asarray(getattr(m2, w), dtype=np.float64)
             require(b2.shape == base[w].shape and bool(np.allclose(b2, base[w], rtol=1e-9 if precise(spec) else 3e-5, atol=mg.tol(tot["abs"], tot["n_terms"], precise(spec)))),
                     "per_obs-changes-total:" + w, lambda: f"{base[w].tolist()} vs {b2.tolist()} with per_obs {po}; {det()}")
+    # values assigned by the model itself: after simulate() (auto-update on) the totals are those of the simulated values
+    if case.get("simulate") and "bare" not in ex and "mvnd" not in ex:
+        from vlib.lz import jax
+
+        model.auto_update = True
+        # (weak variables that carry a distribution cannot be assigned: documented AttributeError unless they are skipped)
+        weak_dist = [d["name"] for d in spec["vars"] if d.get("weak_of") and d["family"]]
+        model.simulate(jax.random.PRNGKey(int(case.get("sim_seed", 0))), skip=weak_dist)
+        values_s = [np.asarray(v.value, dtype=np.float64) for v in lvars]
+        tame = all(np.all(np.isfinite(v)) and np.all(np.abs(v) < 1e6) and (d["support"] == "real" or np.all(np.abs(v) > 1e-6)) for v, d in zip(values_s, spec["vars"]))
+        if tame:
+            tot_s, terms_s, _ = expected(spec, values_s, mv, bij)
+            # (float32 draws can sit exactly on a support boundary, e.g. Beta(0.5, 0.5) -> 1.0, where the density is infinite)
+            tame = all(np.isfinite(tot_s[w]) for w in ("log_prob", "log_lik", "log_prior")) and np.isfinite(tot_s["abs"]) and tot_s["abs"] < 1e6
+        if tame:
+            compare(model, lvars, spec, values_s, mv, "after-simulate:", det, bij)
     dists = [d for d in spec["vars"] if d["family"]]
     has_calc = any(r[0] == "calc" for d in dists for r in d["params"].values())
     special = bool(user) or any(d["role"] == "unflagged" for d in dists) or "bare" in ex or "mvnd" in ex or has_calc
